@@ -3,11 +3,12 @@
    statement templates (6889 pairs): if each parses without diagnostics on its own, their
    concatenation parses without diagnostics and its statement list is exactly the statements of
    the first followed by those of the second (same node kinds, same texts), at top level and
-   inside a block body -- outside two listed known-finding classes, which have witnesses:
+   inside a block body -- outside three listed known-finding classes, which have witnesses:
    `let` is parsed by two different statement routines (alias declaration at the start of a file,
    let statement after the first expression statement and inside every block), and after an
    assignment statement the operator loop keeps going, so a following statement that starts with
-   a binary operator token is glued to it (x = 1; -a;).
+   a binary operator token is glued to it (x = 1; -a;); and an anonymous block that is the last
+   statement of a block body is left as a bare BLOCK_EXPR instead of an expression statement.
    PARTIAL: sequences longer than two and statements beyond the templates are checked on the
    implementation by the `accept` family (random sequences of generated statements). *)
 From Coq Require Import NArith Arith List Bool.
@@ -22,7 +23,7 @@ Proof.
 Qed.
 
 Theorem C16_pairs_compose_in_a_block : forall i j,
-  In (i, j) id_pairs -> k_c16 i j = false -> composes_block i j = true.
+  In (i, j) id_pairs -> k_c16_block i j = false -> composes_block i j = true.
 Proof.
   intros i j Hp K. pose proof pairs_compose_block as H. rewrite forallb_forall in H.
   specialize (H (i, j) Hp). cbn in H. rewrite K in H. exact H.
@@ -33,6 +34,8 @@ Theorem C16_let_context_refuted :
 Proof. exact let_context_refuted. Qed.
 Theorem C16_assignment_glues_operator_refuted : composes_top T_assign_lit T_expr_neg = false.
 Proof. exact assignment_glues_operator_refuted. Qed.
+Theorem C16_trailing_anon_block_refuted : composes_block T_decl_int T_anon_block = false.
+Proof. exact trailing_anon_block_refuted. Qed.
 
 Example C16_nonvacuous : (6889 <=? List.length id_pairs)%nat = true /\
   (6551 <=? List.length (filter (fun '(i, j) => negb (k_c16 i j)) id_pairs))%nat = true.
@@ -42,3 +45,4 @@ Print Assumptions C16_pairs_compose_at_top_level.
 Print Assumptions C16_pairs_compose_in_a_block.
 Print Assumptions C16_let_context_refuted.
 Print Assumptions C16_assignment_glues_operator_refuted.
+Print Assumptions C16_trailing_anon_block_refuted.
